@@ -367,8 +367,17 @@ func c11ForkIds(c *Ctx) {
 		}
 		malformed := i%7 == 0
 		ps := make([]c11Part, depth)
+		prod := 1
 		for j := range ps {
 			ps[j] = c11GenPart(c, malformed)
+			// util.WidthForInt goes through float64 log10 from 10^5 on and is only the digit
+			// count (what the model says) below 10^15: keep the flat index space below that
+			for ps[j].Kind == "arr" && ps[j].Len > 0 && prod*ps[j].Len >= 1e14 {
+				ps[j] = c11GenPart(c, malformed)
+			}
+			if ps[j].Kind == "arr" && ps[j].Len > 0 {
+				prod *= ps[j].Len
+			}
 		}
 		cases = append(cases, ps)
 	}
@@ -480,23 +489,38 @@ func c11Search(c *Ctx) {
 	c11CheckDistinct(c, forks, "single-map")
 
 	// (b) two nested map calls: all key pairs
-	l2 := 3
-	if c.Thorough {
-		l2 = 4
-	}
-	k2 := c11EnumStrings(alpha, l2)
-	forks = forks[:0]
-	npairs := 0
+	// all pairs of keys of <= 3 tokens; in the thorough tier also all (<= 4 tokens, <= 2 tokens) pairs both ways
+	k2 := c11EnumStrings(alpha, 3)
+	type kp struct{ a, b string }
+	var pairs []kp
 	for _, ka := range k2 {
 		for _, kb := range k2 {
-			ps := []c11Part{{Kind: "map", Key: ka, Keys: []string{ka}}, {Kind: "map", Key: kb, Keys: []string{kb}}}
-			id, ok, _ := c11ForkId(ps)
-			if !ok {
-				continue
-			}
-			forks = append(forks, c11Fork{ps, id})
-			npairs++
+			pairs = append(pairs, kp{ka, kb})
 		}
+	}
+	if c.Thorough {
+		k4, k1 := c11EnumStrings(alpha, 4), c11EnumStrings(alpha, 2)
+		for _, ka := range k4 {
+			for _, kb := range k1 {
+				pairs = append(pairs, kp{ka, kb}, kp{kb, ka})
+			}
+		}
+	}
+	forks = forks[:0]
+	npairs := 0
+	seenPair := map[kp]bool{}
+	for _, p := range pairs {
+		if seenPair[p] {
+			continue
+		}
+		seenPair[p] = true
+		ps := []c11Part{{Kind: "map", Key: p.a, Keys: []string{p.a}}, {Kind: "map", Key: p.b, Keys: []string{p.b}}}
+		id, ok, _ := c11ForkId(ps)
+		if !ok {
+			continue
+		}
+		forks = append(forks, c11Fork{ps, id})
+		npairs++
 	}
 	r.Evals += npairs
 	r.Distinct += npairs
